@@ -519,6 +519,8 @@ def cli_cases(tier):
     k = 0
     for A in U.RICH_BASE + ([[1.0, 2.0], [0.0, 0.0]],):
         for ids in sorted(rt.ID_ALPHABETS):
+            if ids == 'padded':
+                continue      # the command reads one id per line and strips it: ids with outer blanks cannot be requested
             for omd, smd in (('none', 'none'), ('tax', 'text'), ('mixed', 'text_edge')):
                 for axis in U.AXES:
                     k += 1
